@@ -7,6 +7,7 @@ Properties/C05.lean — `pcDelta` is the exact histogram of all pairwise distanc
 non-vacuity examples live here; helper lemmas are in Proofs/Hist2.lean.
 -/
 import Prs.Generated.PcDeltaBackground
+import Prs.Generated.DefaultMetric
 import Prs.Proofs.Hist2
 
 namespace Prs
@@ -213,4 +214,13 @@ theorem C05_default_metric (isTable a b : Bool) :
        else if b = true then MetricId.betaCdr3
        else MetricId.levenshtein) := by
   cases isTable <;> cases a <;> cases b <;> rfl
+
+/-- `get_default_metric_for_input_data` as re-read from pyrepseq/distance.py on every run (Generated/DefaultMetric.lean: a decision
+over "is a DataFrame" and the column names present) chooses the modelled default metric, whatever other columns the table has -/
+theorem C05_source_default_metric (isTable a b : Bool) (has : String → Bool) (ha : has "CDR3A" = a) (hb : has "CDR3B" = b) :
+    metricOfName (Generated.get_default_metric isTable has) = some (defaultMetric isTable a b) := by
+  subst ha hb
+  unfold Generated.get_default_metric defaultMetric
+  cases isTable <;> cases has "CDR3A" <;> cases has "CDR3B" <;> simp [metricOfName]
+
 end Prs
